@@ -177,6 +177,15 @@ def run(ctx):
                     ok.append(t)
             bad = validate(ctx, "TraceScoreSelect", ok, decide="Decide", next_="TNext", init="TInit",
                            constants={"MaxChunks": 1, "ScoreLevels": {0}, "Export": False}, extra_files={"fixture.json": fj}, note=fx.name)
+            cand = [t for t in ok if t["holder"]]
+            if not bad and cand:
+                from harness.tracecheck import selftest
+
+                def corrupt(t):
+                    t["holder"][0][0] = 97
+                    return "plate id of the first logged holder entry changed"
+                selftest(ctx, "TraceScoreSelect", cand[0], corrupt, decide="Decide", next_="TNext", init="TInit",
+                         constants={"MaxChunks": 1, "ScoreLevels": {0}, "Export": False}, extra_files={"fixture.json": fj})
             for i, clause in bad[:3]:
                 ctx.violation("fixture %s: real scoring round rejected by TraceScoreSelect at '%s': %s" % (fx.name, clause, json.dumps(ok[i])[:500]),
                               {"kind": "trace", "fixture": fx.name, "trace": ok[i], "clause": clause})
